@@ -102,21 +102,31 @@ func (n *VNode) EchoPerson(x *zygo.Person) *zygo.Person                { return 
 type togoRoot struct {
 	name string
 	mk   func() interface{}
-	echo string
+	echo string // identity method of *VNode for this type; "Touch"+echo[4:] is the mutating one
+	self bool   // the type has a method Self (harness types)
+	// fixedOnly: only hand-written ops use this type; grid and random streams leave it out
+	// (was needed for vpe before fix C10-06; no type uses it today)
+	fixedOnly bool
 }
 
 var togoRoots = []togoRoot{
-	{"vleaf", func() interface{} { return &VLeaf{} }, "EchoVLeaf"},
-	{"vnode", func() interface{} { return &VNode{} }, "EchoVNode"},
-	{"vemb", func() interface{} { return &VEmb{} }, "EchoVEmb"},
-	{"snoopy", func() interface{} { return &zygo.Snoopy{} }, "EchoSnoopy"},
-	{"hornet", func() interface{} { return &zygo.Hornet{} }, "EchoHornet"},
-	{"hellcat", func() interface{} { return &zygo.Hellcat{} }, "EchoHellcat"},
-	{"weather", func() interface{} { return &zygo.Weather{} }, "EchoWeather"},
-	{"plane", func() interface{} { return &zygo.Plane{} }, "EchoPlane"},
-	{"setOfPlanes", func() interface{} { return &zygo.SetOfPlanes{} }, "EchoSetOfPlanes"},
-	{"eventdemo", func() interface{} { return &zygo.Event{} }, "EchoEvent"},
-	{"persondemo", func() interface{} { return &zygo.Person{} }, "EchoPerson"},
+	{"vleaf", func() interface{} { return &VLeaf{} }, "EchoVLeaf", true, false},
+	{"vnode", func() interface{} { return &VNode{} }, "EchoVNode", true, false},
+	{"vemb", func() interface{} { return &VEmb{} }, "EchoVEmb", true, false},
+	{"snoopy", func() interface{} { return &zygo.Snoopy{} }, "EchoSnoopy", false, false},
+	{"hornet", func() interface{} { return &zygo.Hornet{} }, "EchoHornet", false, false},
+	{"hellcat", func() interface{} { return &zygo.Hellcat{} }, "EchoHellcat", false, false},
+	{"weather", func() interface{} { return &zygo.Weather{} }, "EchoWeather", false, false},
+	{"plane", func() interface{} { return &zygo.Plane{} }, "EchoPlane", false, false},
+	{"setOfPlanes", func() interface{} { return &zygo.SetOfPlanes{} }, "EchoSetOfPlanes", false, false},
+	{"eventdemo", func() interface{} { return &zygo.Event{} }, "EchoEvent", false, false},
+	{"persondemo", func() interface{} { return &zygo.Person{} }, "EchoPerson", false, false},
+	// deeper and wider shapes (ch_togo_types.go)
+	{"vd0", func() interface{} { return &VD0{} }, "EchoVD0", true, false},
+	{"vd2", func() interface{} { return &VD2{} }, "EchoVD2", true, false},
+	{"vd4", func() interface{} { return &VD4{} }, "EchoVD4", true, false},
+	{"vwide", func() interface{} { return &VWide{} }, "EchoVWide", true, false},
+	{"vpe", func() interface{} { return &VPE{} }, "EchoVPE", false, false},
 }
 
 var togoEnv *zygo.Zlisp
@@ -483,6 +493,8 @@ func canonSexp(s zygo.Sexp, depth int) string {
 		return "raw:" + togoCodes(x.Val)
 	case *zygo.SexpTime:
 		return "t:" + canonTime(x.Tm)[5:]
+	case *zygo.SexpPair:
+		return "pair"
 	case *zygo.SexpSentinel:
 		if x == zygo.SexpNull {
 			return "nil"
@@ -708,8 +720,10 @@ func togoExec(toks []string) string {
 
 func togoOnce(mode string, r *togoRoot, term []string) (ans string) {
 	p := &termParser{toks: term, recs: map[int]*zygo.SexpHash{}}
-	var rec zygo.Sexp
-	quiet(func() { rec = p.term() })
+	rec, failed := buildTerm(p)
+	if failed {
+		return "err" // the script cannot even build the record (MakeHash panics for its type)
+	}
 	if p.err != "" || p.pos != len(term) {
 		return "bad-term"
 	}
